@@ -5,7 +5,10 @@ From Helm Require Import Engine.Types Engine.Eff Engine.Ops Engine.Skeleton Engi
                          Engine.SkeletonModel Engine.SkeletonProofs.
 Import ListNotations.
 
-Lemma check_rollback : check_op ORollback expected rexpected = true.
+Lemma check_ok_rollback : check_op_ok ORollback expected rexpected = true.
+Proof. vm_cast_no_check (eq_refl true). Qed.
+
+Lemma check_fail_rollback : check_op_fail ORollback expected rexpected = true.
 Proof. vm_cast_no_check (eq_refl true). Qed.
 
 Lemma check_all_flags_rollback : check_op_all_flags ORollback expected rexpected = true.
